@@ -345,9 +345,11 @@ def build (e : Env) (a : BuildArgs) : R Url := do
       let netloc ←
         (if !a.authority.isEmpty then do
           let np ← splitNetloc e.o a.authority
-          let h ← (match np.host with
+          let h1 ← (match np.host with
             | some h => encodeHost e.o h false
             | none => pure [] : R Str)
+          -- a bracketed host that is not an IPv6 address keeps its brackets, as in the constructor
+          let h := if mem 91 (rpartition 64 a.authority).2.2 && !mem 91 h1 then [91] ++ h1 ++ [93] else h1
           let port := match np.port with
             | some p => if some p = defaultPort a.scheme then none else some p
             | none => none
